@@ -5,7 +5,7 @@
 //!   a:<kind>.<serial>.<reply>.<member>.<sender 0|1>.<iface 0|1>   the peer writes this message
 //!         kind c|s|r|e ; reply 0 = none ; member - = none
 //!   tr:<s> | ts | tc                      try_get_response / try_get_signal / try_get_call
-//!   wr:<s>:<mode> | ws:<mode> | wc:<mode> wait_* ; mode I = Timeout::Infinite, N = Nonblock, D = Duration(1ms)
+//!   wr:<s>:<mode> | ws:<mode> | wc:<mode> wait_* ; mode I = Duration(2 s) standing in for Infinite (the message is there), N = Nonblock, D = Duration(1ms)
 //!   ro:<mode>                             refill_once
 //!   ra                                    refill_all
 //! stdout: one token per op, comma separated; after the token, `|` and the errors the peer read
@@ -181,9 +181,13 @@ fn drain_peer(peer: &mut std::os::unix::net::UnixStream, pending: &mut Vec<u8>) 
     out
 }
 
+/// "I": the model says the message is there, so the call returns at once; a generous bound instead of
+/// Timeout::Infinite keeps the harness alive when the implementation does not find it (reported as HANG)
+const LONG_MS: u64 = 2000;
+
 fn tmo(mode: &str) -> Timeout {
     match mode {
-        "I" => Timeout::Infinite,
+        "I" => Timeout::Duration(std::time::Duration::from_millis(LONG_MS)),
         "N" => Timeout::Nonblock,
         _ => Timeout::Duration(std::time::Duration::from_millis(1)),
     }
@@ -254,7 +258,11 @@ fn run(fidx: u32, ops: &str) -> String {
             _ => "?".to_string(),
         };
         let sent = drain_peer(&mut peer, &mut pending);
-        out.push(format!("{}|{}", tok, sent.join(";")));
+        let hang = tok == "T" && op.ends_with(":I");
+        out.push(format!("{}|{}", if hang { "HANG" } else { &tok }, sent.join(";")));
+        if hang {
+            break;
+        }
     }
     if !pending.is_empty() {
         out.push(format!("LEFTOVER{}", pending.len()));
